@@ -1,8 +1,35 @@
 (** * C18 property theorems — statements only; proofs live in coq/C18/*Proofs.v.
     Each theorem is closed by [exact] and followed by [Print Assumptions]. *)
 From Coq Require Import List Arith Bool ZArith Reals Permutation.
-From Celer Require Import C18.Algorithms C18.Specs C18.ArrayLemmas C18.SearchProofs C18.IntProofs.
+From Celer Require Import Base.Num Base.NumR Base.NumF C18.Algorithms C18.Specs C18.ArrayLemmas C18.SearchProofs
+  C18.IntProofs C18.HeapsortProofs C18.IndexProofs C18.Grids C18.GridProofs C18.GridWitness.
 Import ListNotations.
+
+(** ** celeritas::sort (heap sort): for every strict weak order and every array
+    the result is sorted and is a permutation of the input *)
+Theorem C18_sort_sorted : forall (A : Type) (d : A) (cmp : A -> A -> bool),
+  strict_weak_order cmp -> forall l, sorted cmp d (sort d cmp l).
+Proof. exact (@sort_sorted). Qed.
+Print Assumptions C18_sort_sorted.
+
+Theorem C18_sort_permutation : forall (A : Type) (d : A) (cmp : A -> A -> bool) (l : list A),
+  Permutation l (sort d cmp l).
+Proof. exact (@sort_permutation). Qed.
+Print Assumptions C18_sort_permutation.
+
+(** sift_down extends the heap by one node; make_heap builds a heap *)
+Theorem C18_sift_down_heap : forall (A : Type) (d : A) (cmp : A -> A -> bool),
+  strict_weak_order cmp -> forall l len start, len <= length l ->
+  heap_from d cmp l len (S start) ->
+  heap_from d cmp (sift_down d cmp l len start) len start /\
+  (forall i, len <= i -> get d (sift_down d cmp l len start) i = get d l i).
+Proof. exact (@sift_down_heap). Qed.
+Print Assumptions C18_sift_down_heap.
+
+Theorem C18_make_heap_is_heap : forall (A : Type) (d : A) (cmp : A -> A -> bool),
+  strict_weak_order cmp -> forall l, heap_from d cmp (make_heap d cmp l) (length l) 0.
+Proof. exact (@make_heap_is_heap). Qed.
+Print Assumptions C18_make_heap_is_heap.
 
 (** std::lower_bound semantics, for every strict weak order and sorted list *)
 Theorem C18_lower_bound_spec : forall (A : Type) (d : A) (cmp : A -> A -> bool),
@@ -64,5 +91,109 @@ Print Assumptions C18_local_work_total.
 Theorem C18_ipow_spec : forall n,
   (forall v : Z, ipow 1%Z Z.mul n v = (v ^ Z.of_nat n)%Z) /\
   (forall v : R, ipow 1%R Rmult n v = pow v n).
-Proof. intro n; split; [exact (ipow_spec_Z n) | exact (ipow_spec_R n)]. Qed.
+Proof. exact ipow_spec. Qed.
 Print Assumptions C18_ipow_spec.
+
+(** ** ranges, including negative steps *)
+Theorem C18_range_elements : forall a b s, (a <= b)%Z -> s <> 0%Z ->
+  step_range a b s =
+    if (0 <? s)%Z then arith (Z.to_nat ((b - 1 - a) / s + 1)) a s
+    else arith (Z.to_nat ((b - a) / (- s))) (b + s) s.
+Proof. exact range_elements. Qed.
+Print Assumptions C18_range_elements.
+
+Theorem C18_range_plain : forall a b, (a <= b)%Z -> range a b = arith (Z.to_nat (b - a)) a 1.
+Proof. exact range_plain. Qed.
+Print Assumptions C18_range_plain.
+
+Theorem C18_arith_nth : forall n v s k, k < n -> nth k (arith n v s) 0%Z = (v + Z.of_nat k * s)%Z.
+Proof. exact arith_nth. Qed.
+Print Assumptions C18_arith_nth.
+
+(** ** indexers *)
+Theorem C18_hyperslab_bijective : forall dims, dims <> [] -> Forall (lt 0) dims ->
+  (forall coords, coords_valid dims coords ->
+     hyperslab_index dims coords < prod dims /\
+     hyperslab_coords dims (hyperslab_index dims coords) = coords) /\
+  (forall index, index < prod dims ->
+     coords_valid dims (hyperslab_coords dims index) /\
+     hyperslab_index dims (hyperslab_coords dims index) = index).
+Proof. exact hyperslab_bijective. Qed.
+Print Assumptions C18_hyperslab_bijective.
+
+Theorem C18_ragged_right_bijective : forall offsets, 2 <= length offsets -> offsets_mono offsets ->
+  (forall a b, a + 1 < length offsets -> b < off offsets (a + 1) - off offsets a ->
+     ragged_coords offsets (ragged_index offsets (a, b)) = (a, b)) /\
+  (forall index, off offsets 0 <= index -> index < off offsets (length offsets - 1) ->
+     let c := ragged_coords offsets index in
+     fst c + 1 < length offsets /\ snd c < off offsets (fst c + 1) - off offsets (fst c) /\
+     ragged_index offsets c = index).
+Proof. exact ragged_right_bijective. Qed.
+Print Assumptions C18_ragged_right_bijective.
+
+(** ** grids (instance R of coq/C18/Grids.v) *)
+Local Open Scope R_scope.
+
+Theorem C18_uniform_find : forall g v, ug_valid g -> ug_front g <= v < ug_back g ->
+  let i := ug_find g v in
+  (0 <= i)%Z /\ (i + 1 < ug_size g)%Z /\ ug_at g i <= v < ug_at g (i + 1).
+Proof. exact ug_find_spec. Qed.
+Print Assumptions C18_uniform_find.
+
+(** the index law bin + 1 < size of the CURRENT UniformGrid::find (with the
+    step back of commit e0c3783) for any monotone rounding with relative error
+    u at the grid spacing and at the top quotient (binary64: u = 2^-53,
+    size <= 2^52, no underflow) *)
+Theorem C18_uniform_find_rounded_in_range : forall (rnd : R -> R) (u : R),
+  0 <= u -> (forall x y, x <= y -> rnd x <= rnd y) -> rnd 0 = 0 ->
+  forall front back size v,
+  (2 <= size)%Z -> 2 * IZR size * u < 1 -> front <= v < back ->
+  let D := rnd (back - front) in
+  let delta := rnd (D / IZR (size - 1)) in
+  0 < D -> (D / IZR (size - 1)) * (1 - u) <= delta ->
+  rnd (D / delta) <= (D / delta) * (1 + u) ->
+  let bin := rfind rnd front back size v in
+  (0 <= bin)%Z /\ (bin + 1 < size)%Z.
+Proof. exact rfind_in_range. Qed.
+Print Assumptions C18_uniform_find_rounded_in_range.
+
+(** without the step back the law fails on binary64 (finding F3, repaired) *)
+Theorem C18_uniform_find_raw_refuted : exists (front back : PrimFloat.float) (size : Z) (v : PrimFloat.float),
+  PrimFloat.leb front v = true /\ PrimFloat.ltb v back = true /\
+  (ug_find_raw (ug_from_bounds front back size) v + 1 = size)%Z /\
+  (ug_find (ug_from_bounds front back size) v + 1 < size)%Z.
+Proof. exact uniform_find_raw_refuted. Qed.
+Print Assumptions C18_uniform_find_raw_refuted.
+
+Theorem C18_nonuniform_find_spec : forall (g : list R) v, increasing g -> (2 <= length g)%nat ->
+  get 0 g 0 <= v < get 0 g (length g - 1) ->
+  let i := nu_find g v in
+  (i + 1 < length g)%nat /\ get 0 g i <= v < get 0 g (i + 1).
+Proof. exact nu_find_spec. Qed.
+Print Assumptions C18_nonuniform_find_spec.
+
+Theorem C18_find_interp_fraction : forall (g : list R) v, increasing g -> (2 <= length g)%nat ->
+  get 0 g 0 <= v < get 0 g (length g - 1) ->
+  let r := find_interp_n g v in
+  (fst r + 1 < length g)%nat /\ 0 <= snd r < 1 /\
+  v = get 0 g (fst r) + snd r * (get 0 g (fst r + 1) - get 0 g (fst r)).
+Proof. exact find_interp_n_fraction. Qed.
+Print Assumptions C18_find_interp_fraction.
+
+Theorem C18_find_interp_uniform_fraction : forall g v, ug_valid g -> ug_front g <= v < ug_back g ->
+  let r := find_interp_u g v in
+  (0 <= fst r)%Z /\ (fst r + 1 < ug_size g)%Z /\ 0 <= snd r < 1.
+Proof. exact find_interp_u_fraction. Qed.
+Print Assumptions C18_find_interp_uniform_fraction.
+
+Theorem C18_lin_interp_between : forall xl yl xr yr x : R, xl < xr -> xl <= x <= xr ->
+  lin_interp xl yl xr yr xl = yl /\ lin_interp xl yl xr yr xr = yr /\
+  Rmin yl yr <= lin_interp xl yl xr yr x <= Rmax yl yr.
+Proof. exact lin_interp_spec. Qed.
+Print Assumptions C18_lin_interp_between.
+
+Theorem C18_twod_bilinear_at_nodes : forall (xs ys vals : list R) i j,
+  increasing xs -> increasing ys -> (i + 1 < length xs)%nat -> (j + 1 < length ys)%nat ->
+  twod xs ys vals (get 0 xs i) (get 0 ys j) = get 0 vals (i * length ys + j).
+Proof. exact twod_at_nodes. Qed.
+Print Assumptions C18_twod_bilinear_at_nodes.
